@@ -20,7 +20,10 @@ import (
 	"verif/harness/internal/core"
 )
 
-type prop struct{ srv *server }
+type prop struct {
+	srv *server
+	fsw *fsWorld
+}
 
 func New() core.Prop { return &prop{} }
 
@@ -536,6 +539,8 @@ func (k *kase) negotiated() (string, error) {
 func (p *prop) Run(line string) core.Outcome {
 	if f := strings.Fields(line); len(f) == 3 && f[0] == "cf" {
 		return p.runCf(f)
+	} else if len(f) == 9 && f[0] == "fs" {
+		return p.runFs(f)
 	}
 	k, ok := parseCase(line)
 	if !ok {
